@@ -130,6 +130,20 @@ def main():
         if pid == "C19":
             c["text"] = c["text"] + " Sibling cross-check: within the implementations of one expression-interface method, all hcl Expression.Value calls agree on nil vs non-nil evaluation context (JSON strings are template-parsed only with a context)."
             c["technique"] = c["technique"] + "; sibling-implementation cross-check of evaluation contexts (E13.sibling-eval-context)"
+        if pid in {"C08","C09","C10","C12","C13"}:
+            c["text"] = c["text"] + " Sibling ladders (E13.any): the feature methods of decoder.Any and decoder.LiteralType each have a rung for list/set/tuple/map/object; every rung builds the constraint kind it tested, asserts the syntax node that can hold it, hands the tested type's element type(s) down (literal-only in LiteralType), agrees with its siblings on the remaining constraint fields, is gated by a constraint flag only where reviewed (completion's Skip…ComplexTypes), and every feature reaches a handler for each syntactic form its siblings handle."
+            c["technique"] = c["technique"] + "; sibling-ladder cross-check over decoder.Any/LiteralType (E13.any-delegation, E13.any-forms)"
+        if pid in {"C06","C07","C08"}:
+            c["text"] = c["text"] + " Prefix source (E8.prefix-source): the prefix argument of every strings.HasPrefix candidate filter, followed backwards through locals and call sites of unexported helpers, never derives from a schema value."
+            c["technique"] = c["technique"] + "; backward data-source trace of completion prefixes (E8.prefix-source)"
+        if pid in {"C09","C10","C14"}:
+            c["text"] = c["text"] + " Skip rows (E1.skip-row): in resolveBlockAddress a step is left out (continue before the append) only when the attribute is absent and the step optional."
+        if pid == "C14":
+            c["text"] = c["text"] + " BlockSymbol.Name is the block type followed by every label, Go-quoted with %q / strconv.Quote (no other transformation of the label text)."
+        if pid in E15_PROPS | {"C17","C04"}:
+            c["text"] = c["text"] + " A slice made with a non-zero length is filled by index or copy and is not appended to while its made elements are never stored into (E15.append-after-sized-make)."
+        if pid in E15_PROPS:
+            c["text"] = c["text"] + " A text (string/Builder/Buffer) appended to in a loop nested in an outer loop's body and read once per outer element is re-initialised per element or is a whole-result accumulator (E15.carried-accumulator); a collecting loop is not left by returning the partial collection on a per-element miss (E15.collect-all, returns); homogeneous containers (List/Set/Tuple/Map) hand their children the same constraint in every feature (E15.sibling-child-constraint)."
         if pid in E15_PROPS:
             c["text"] = c["text"] + E15_TEXT
             c["technique"] = c["technique"] + "; module-wide loop/comparison discipline rules (E15) and ownership engine"
